@@ -26,7 +26,7 @@ import (
 // ---- C04 / C06 / C07: connection life cycles, shutdown, descriptor ownership -------------
 
 var lifePlans = []string{
-	"peerFIN", "peerRST", "peerHalf", "backpressure", "dupHeld", "actOpen", "actTraffic", "connClose", "closeCB", "loopClose", "loopCloseMore",
+	"peerFIN", "peerRST", "peerHalf", "backpressure", "dupHeld", "loopCloseInOpen", "actOpen", "actTraffic", "connClose", "closeCB", "loopClose", "loopCloseMore",
 	"loopCloseOther", "writeFail", "shutdown", "raceFINClose", "raceActRST", "quiet", "stale", "openReplyClose",
 }
 
@@ -108,6 +108,18 @@ func (s *lifeScenario) onOpen(cs *connState, c gnet.Conn) ([]byte, gnet.Action) 
 		return nil, gnet.Shutdown
 	}
 	switch d.plan {
+	case "loopCloseInOpen":
+		// a close requested while OnOpen is still running must be carried out: exactly one OnClose, nested here
+		cs.armedLocal.Store(true)
+		err := c.EventLoop().Close(c)
+		if errors.Is(err, errorx.ErrEngineShutdown) {
+			return nil, gnet.Shutdown
+		}
+		if n := atomic.LoadInt32(&cs.closes); n != 1 {
+			s.mon.violate("C04 EventLoop.Close inside OnOpen did not deliver OnClose", fmt.Sprintf("connection %d: EventLoop.Close(c) from OnOpen returned %v and OnClose ran %d times", cs.tok, err, n))
+		}
+		s.key(s.c.class() + "|close-inside-OnOpen")
+		return nil, gnet.None
 	case "actOpen":
 		cs.armedLocal.Store(true)
 		return nil, gnet.Close
@@ -245,8 +257,11 @@ func (s *lifeScenario) onClose(cs *connState, c gnet.Conn, err error) gnet.Actio
 		s.key(s.c.class() + "|onclose-write|" + map[bool]string{true: "nil", false: "err"}[err == nil])
 	}
 	s.key(s.c.class() + "|close|" + d.plan + "|" + map[bool]string{true: "nil", false: "err"}[err == nil])
-	if s.shutdownFrom == "OnClose" && s.shutdownArmed.Load() && !s.shutdownFired.Swap(true) {
-		s.armAll()
+	if s.shutdownFrom == "OnClose" && s.shutdownArmed.Load() {
+		// every OnClose asks for shutdown from now on, also those delivered by the shutdown sweep itself
+		if !s.shutdownFired.Swap(true) {
+			s.armAll()
+		}
 		return gnet.Shutdown
 	}
 	return gnet.None
@@ -453,7 +468,7 @@ func runLifeCase(c cfg, seed uint64, o lifeOpts, keys map[string]struct{}) (eval
 					}
 				}
 			}
-			if p.plan != "actOpen" && p.plan != "openReplyClose" {
+			if p.plan != "actOpen" && p.plan != "openReplyClose" && p.plan != "loopCloseInOpen" {
 				greeting()
 			}
 			drain := func(timeout time.Duration) {
@@ -502,7 +517,7 @@ func runLifeCase(c cfg, seed uint64, o lifeOpts, keys map[string]struct{}) (eval
 				}
 				drain(5 * time.Second)
 				closePeer(conn)
-			case "actOpen", "openReplyClose":
+			case "actOpen", "openReplyClose", "loopCloseInOpen":
 				drain(5 * time.Second)
 				closePeer(conn)
 			case "actTraffic":
